@@ -5,7 +5,9 @@ MANIFEST = {
     "text": "Lean 4 theorems over a transcription of List/ListOp/RangeOp/BinaryOpNR/R/BinaryExprNR/R of tpl/tpl.go (failed type assertions and "
             "index errors are an explicit panic outcome): C30_list_of, C30_listOp_map, C30_rangeOp_order (R results in source order, each once), "
             "C30_binaryOpNR_foldl, C30_binaryOpR_foldl_nested (left fold with the separators in order; nested lists folded recursively first), "
-            "C30_binaryExpr_leftassoc, C30_binaryExprR_leftassoc_nested, C30_helpers_pure / C30_helpers_repeatable / C30_exprHelpers_pure / C30_list_then_rangeOp "
+            "C30_binaryExpr_leftassoc, C30_binaryExprR_leftassoc_nested, C30_listOp_calls_in_order / C30_listOp_log / C30_rangeOp_calls_in_order / "
+            "C30_binaryOp_calls_in_order / C30_binaryOpR_calls_in_order (helpers modelled over a state-passing callback: fn is called on the R results / "
+            "separators in source order, each once; nested operands are folded right before the call that consumes them), C30_helpers_pure / C30_helpers_repeatable / C30_exprHelpers_pure / C30_list_then_rangeOp "
             "(in a sequence of helper calls on the same match result every call answers as on the original tree), C30_match_result_is_mkList (the matcher's R1 % R2 result has the shape the "
             "helpers expect), and C30_calc_correct: for the README calculator grammar (matcher tree calcEnv, return procedures built from BinaryOp(true,…)) "
             "over an abstract number type, parsing any lexed arithmetic expression yields the value a precedence-climbing reference evaluator yields. "
@@ -19,7 +21,7 @@ MANIFEST = {
     "technique": "Lean 4 proof (list induction; matcher evaluation lemmas) + differential correspondence + independent order/value oracle",
 }
 
-RULE = ("2/3 helper cases (one third of them sequences h1,h2,h1 over all helper pairs on the same tree in 3 memory layouts, plus all 25 pairs on real Match results of INT % \",\" with 1-5 elements, whole and as prefix self[:2] of a longer result; the calculator folds every match result twice): result trees generated from a nesting structure (depth<=3, 0-3 (op,operand) pairs per level; operands leaf/token/nil/nested), "
+RULE = ("callbacks are RECORDING (log of arguments + call number in the returned value), so call order is compared and checked by the oracle; operands of the non-recursive helpers are also list-valued (vectors, pairs, empty lists, look-alikes of unfolded X % op results); 2/3 helper cases (one third of them sequences h1,h2,h1 over all helper pairs on the same tree in 3 memory layouts, plus all 25 pairs on real Match results of INT % \",\" with 1-5 elements, whole and as prefix self[:2] of a longer result; the calculator folds every match result twice): result trees generated from a nesting structure (depth<=3, 0-3 (op,operand) pairs per level; operands leaf/token/nil/nested), "
         "70% well-formed (with the expected order computed from the structure, not from the tree) and 30% damaged (missing/short/extra elements, "
         "non-list, non-token operator) for each of list, listop, rangeop, bopnr, bopr, bexnr, bexr; 1/3 calculator cases: expressions of 1-7 operands "
         "(0..12, repeated unary minus) over + - *, random spacing, 25% damaged; non-trivial = distinct case with >= 2 elements / >= 3 tokens")
